@@ -174,15 +174,20 @@ func buildShiftMatchingPredicate(sw swamp.Swamp, beaconType swamp.BeaconType, fi
 	plan := PlanFilter(filters)
 	filterEval := filters
 	var keySet map[string]struct{}
+	// useKeySet (not keySet != nil) decides the fast-reject: candidateKeySet
+	// returns nil for an empty candidate list, and an empty candidate list
+	// means "no record can match", not "no fast-reject".
+	useKeySet := false
 	if plan.Mode != PlanModeBypass {
 		candidates := collectBucketCandidates(sw, plan.Hints)
 		keySet = candidateKeySet(candidates)
+		useKeySet = true
 		filterEval = plan.Residual
 	}
 
 	if !hasTimeBounds {
 		return func(t treasure.Treasure) bool {
-			if keySet != nil {
+			if useKeySet {
 				if _, in := keySet[t.GetKey()]; !in {
 					return false
 				}
@@ -195,7 +200,7 @@ func buildShiftMatchingPredicate(sw swamp.Swamp, beaconType swamp.BeaconType, fi
 		if !inTimeRange(getTs(t), fromNano, toNano) {
 			return false
 		}
-		if keySet != nil {
+		if useKeySet {
 			if _, in := keySet[t.GetKey()]; !in {
 				return false
 			}
